@@ -26,7 +26,7 @@ EXPLANATION = (
     "the base-type converter: to_json() stays serialisable by the json module)."
 )
 NOT_DECIDED = "behavioural equality of the reloaded object on data; json module's own float round trip"
-FLOORS = {"R-json-keys": 3, "R-json-extras": 2, "R-json-closure": 1, "R-sentinel": 4, "R-json-order": 1, "R-loader-fits": 2, "R-history-json-types": 9}
+FLOORS = {"R-json-keys": 3, "R-json-extras": 2, "R-json-closure": 1, "R-sentinel": 4, "R-json-order": 1, "R-loader-fits": 3, "R-summary-scope": 1, "R-history-json-types": 9}
 
 NON_BEHAVIOURAL = {"verbose": "printing only", "n_jobs": "number of worker processes only (C10: result independent of it)"}
 
@@ -204,6 +204,27 @@ def rule_loader(ctx):
     ctx.ob(R, construct(ld, "the returned object has been fitted (labels_per_values built)"), ok, loc(ld))
 
 
+def rule_history_restored(ctx):
+    """load_carver gives the reloaded object exactly the `_history` that was serialised: the value
+    taken out of the JSON dict is stored as it is (no filtering, no re-keying), so serialising the
+    reloaded object yields the same JSON again."""
+    R = "R-loader-fits"
+    lc = ctx.repo.find_function(f"{F_BC}::load_carver")
+    stores = [n for n in walk_no_nested(lc.node) if isinstance(n, ast.Assign) and isinstance(n.targets[0], ast.Attribute) and n.targets[0].attr == "_history"]
+    ok = False
+    why = "no assignment of ._history in load_carver"
+    if len(stores) == 1 and isinstance(stores[0].value, ast.Name):
+        nm = stores[0].value.id
+        defs = [n for n in walk_no_nested(lc.node) if isinstance(n, ast.Assign) and any(isinstance(x, ast.Name) and x.id == nm and isinstance(x.ctx, ast.Store) for t in n.targets for x in ast.walk(t))]
+        ok = len(defs) == 1 and isinstance(defs[0].value, ast.Call) and call_name(defs[0].value) in ("pop", "get") and "_history" in unparse(defs[0].value)
+        why = "" if ok else f"`{nm}` is re-computed between the JSON dict and the reloaded object: {[short(d) for d in defs]}"
+    elif len(stores) == 1:
+        v = stores[0].value
+        ok = isinstance(v, ast.Call) and call_name(v) in ("pop", "get") and "_history" in unparse(v)
+        why = "" if ok else f"`_history` is stored as `{short(v)}`"
+    ctx.ob(R, construct(lc, "the serialised _history is restored as it is"), ok, loc(lc, stores[0] if stores else None), why)
+
+
 def _python_bool(cfg, fn, e, use, depth=0):
     """True: a Python bool / None; False: definitely a numpy/pandas scalar; None: unknown."""
     from .carver import dominating_def
@@ -268,6 +289,10 @@ def check(ctx):
     rule_sentinel(ctx)
     rule_json_order(ctx)
     rule_loader(ctx)
+    rule_history_restored(ctx)
+    from . import c16
+
+    c16.rule_summary_number_filter(ctx)  # the summary of a reloaded object (builtin numbers) equals the original's (numpy numbers)
 
 
 _D13 = """        # adding history of loaded carvers
